@@ -72,9 +72,18 @@ func main() {
 			}
 		}
 	case "mulslice", "muladdslice":
-		for i := 0; i < 300; i++ {
+		for i := 0; i < 400; i++ {
 			c := uint16(rng.Intn(65536))
+			switch {
+			case i < 32:
+				c = uint16(65535 - i) // the last table rows
+			case i < 48:
+				c = uint16(i - 32) // the first ones
+			}
 			l := 2 * rng.Intn(60)
+			if i%7 == 0 {
+				l = 64 + 2*rng.Intn(40)
+			}
 			in := make([]byte, l)
 			out := make([]byte, l)
 			rng.Read(in)
